@@ -91,8 +91,8 @@ func checkC07(c *Ctx) {
 		} else {
 			add, probe := addL.site(), probeL.site()
 			probeCall := probeL.call
-			guardPath := guardL.toRoot(pathOf(guardL.call))
-			probePath := probeL.toRoot(pathOf(probeL.call))
+			guardPath := guardL.toRoot(pathOf(guardL.call.Value()))
+			probePath := probeL.toRoot(pathOf(probeL.call.Value()))
 			guarded := func(_ *ssa.Function, in ssa.Instruction, atoms ...Atom) bool {
 				switch in {
 				case add:
@@ -102,49 +102,28 @@ func checkC07(c *Ctx) {
 				}
 				return guardedM(f, in, atomMatcher(atoms...))
 			}
-			v := validateL.toRoot(pathOf(validateL.call))
+			v := validateL.toRoot(pathOf(validateL.call.Value()))
 			r.Check(guarded(f, add, Atom{v + "#0", true}) && guarded(f, add, Atom{"(" + orderEq("nil", v+"#1") + ")", true}), "C07.1", "ingest: validated only after ValidateRegistration returned (true, nil)", add.Pos(), fnName(f), "dominated by ok && err == nil",
 				"a registration that failed field/transport/blocklist validation can still be validated and announced")
 			r.Check(guarded(f, add, Atom{"(" + orderEq(`""`, guardPath+"#0") + ")", false}), "C07.1", "ingest: validated only with a covert that passed the covert policy", add.Pos(), fnName(f), "dominated by covert != \"\"",
 				"a registration whose covert was rejected by the covert policy is validated")
 			// live phantom never validated: AddRegistration unreachable from the live==true edge
-			liveEdges := edgesEstablishing(f, atomMatcher(Atom{probePath + "#0", true}))
-			okLive := len(liveEdges) > 0
-			for e := range liveEdges {
-				succ := f.Blocks[e.from].Succs[e.slot]
-				if len(succ.Instrs) > 0 {
-					if hit, _ := reachAt(f, succ, isInstr(add), nil, nil); hit || succ.Instrs[0] == add {
-						okLive = false
-					}
-				}
-			}
+			liveM := atomMatcher(Atom{probePath + "#0", true})
+			okLive, foundLive := neverAfter(addL, liveM, nil)
+			okLive = okLive && foundLive
 			r.Check(okLive, "C07.1", "ingest: a registration whose phantom answered the probe is never validated", add.Pos(), fnName(f), "AddRegistration unreachable from the live edge",
 				"a registration with a live phantom reaches the validate/announce step: the station hijacks traffic of a real host")
 			// detector source => phantom blocklist
-			srcEdges := edgesEstablishing(f, atomMatcher(Atom{"(1 == reg.RegistrationSource)", true}))
-			blocked := edgesEstablishing(f, atomMatcher(Atom{"rm.RegConfig.IsBlocklistedPhantom(reg.PhantomIp)", false}))
-			okDet := len(srcEdges) > 0 && len(blocked) > 0
-			for e := range srcEdges {
-				succ := f.Blocks[e.from].Succs[e.slot]
-				if len(succ.Instrs) > 0 {
-					if hit, _ := reachAt(f, succ, isInstr(add), nil, blocked); hit {
-						okDet = false
-					}
-				}
-			}
+			okDet, foundDet := neverAfter(addL, atomMatcher(Atom{"(1 == reg.RegistrationSource)", true}), atomMatcher(Atom{"rm.RegConfig.IsBlocklistedPhantom(reg.PhantomIp)", false}))
+			okDet = okDet && foundDet && guardedDeepM(addL, func(c string, pol bool) bool {
+				// the blocklist test exists on the way (a registration of another source passes the source test instead)
+				return (c == "rm.RegConfig.IsBlocklistedPhantom(reg.PhantomIp)" && !pol) || (c == "(1 == reg.RegistrationSource)" && !pol)
+			})
 			r.Check(okDet, "C07.1", "ingest: detector-sourced registrations are validated only if the phantom is not blocklisted", add.Pos(), fnName(f), "every path from the source==Detector edge passes !IsBlocklistedPhantom",
 				"a detector-sourced registration for a blocklisted phantom is validated (ValidateRegistration skips the blocklist for this source by design)")
 			// duplicate deliveries do not re-run admission: RegistrationExists true edge never reaches AddRegistration
-			dup := edgesEstablishing(f, atomMatcher(Atom{"rm.RegistrationExists(reg)", true}))
-			okDup := len(dup) > 0
-			for e := range dup {
-				succ := f.Blocks[e.from].Succs[e.slot]
-				if len(succ.Instrs) > 0 {
-					if hit, _ := reachAt(f, succ, isInstr(add), nil, nil); hit {
-						okDup = false
-					}
-				}
-			}
+			okDup, foundDup := neverAfter(addL, atomMatcher(Atom{"rm.RegistrationExists(reg)", true}), nil)
+			okDup = okDup && foundDup
 			r.Check(okDup, "C07.1", "ingest: a duplicate delivery does not validate", add.Pos(), fnName(f), "AddRegistration unreachable from the exists edge", "a duplicate delivery skips the admission checks and validates the tracked registration")
 
 			// ---- C07.2
@@ -154,11 +133,10 @@ func checkC07(c *Ctx) {
 			r.Check(g1 && g2, "C07.2", "ingest: probe only for IPv4 phantoms that were not pre-scanned", probe.Pos(), fnName(f), "dominated by !PreScanned() && To4() != nil",
 				"a liveness probe is sent although none is required (pre-scanned by another station, or IPv6): needless active probing of phantom hosts")
 			r.Check(g3, "C07.2", "ingest: probe only after the covert check passed", probe.Pos(), fnName(f), "dominated by covert != \"\"", "phantoms are probed for registrations that are rejected anyway")
-			notReq := edgesEstablishing(f, atomMatcher(Atom{"reg.PreScanned()", true}, Atom{"(" + orderEq("nil", "reg.PhantomIp.To4()") + ")", true}))
-			bypass, w := reach(f, nil, isInstr(add), isInstr(probe), notReq)
-			if !mustPassDeep(probeL) {
-				bypass = true // the helper that holds the probe can return without sending it
-			}
+			notReqM := atomMatcher(Atom{"reg.PreScanned()", true}, Atom{"(" + orderEq("nil", "reg.PhantomIp.To4()") + ")", true})
+			notReq := edgesEstablishing(f, notReqM)
+			_, w := reach(f, nil, isInstr(add), isInstr(probe), notReq)
+			bypass := !alwaysBefore(addL, probeL, notReqM)
 			if bypass {
 				r.Bad("C07.2", "ingest: AddRegistration reachable without the probe for a non-prescanned IPv4 phantom", add.Pos(), fnName(f),
 					"the liveness probe can be bypassed for a registration that requires it: a live host's address is used as a phantom", r.blockPath(f, w)...)
@@ -166,36 +144,34 @@ func checkC07(c *Ctx) {
 				r.OK("C07.2", "ingest: the probe is must-pass for non-prescanned IPv4 phantoms", add.Pos(), "no path to AddRegistration avoids it except PreScanned()/IPv6 edges")
 			}
 			// the probed address/port are the registration's phantom
-			pa := argsOf(&probeCall.Call)
+			pa := argsOf(probeCall.Common())
 			r.Check(len(pa) >= 2 && probeL.toRoot(pathOf(pa[0])) == "reg.PhantomIp.String()" && probeL.toRoot(pathOf(pa[1])) == "reg.PhantomPort", "C07.2", "ingest: the probe targets the registration's phantom address and port", probe.Pos(), fnName(f), probePath, "the liveness probe targets something other than this registration's phantom")
 
 			// ---- C07.6 sharing
 			r.Rule("C07.6", "sharing only for detector-sourced registrations with sharing enabled, after the probe, marked pre-scanned", 4)
-			var share *ssa.Go
-			eachInstr(f, func(in ssa.Instruction) {
-				if g, ok := in.(*ssa.Go); ok && calleeShort(&g.Call) == "tryShareRegistrationOverAPI" {
-					share = g
+			shareL, okShare := findOneDeep(f, shortIs("tryShareRegistrationOverAPI"))
+			if okShare {
+				if _, isGo := shareL.call.(*ssa.Go); !isGo {
+					okShare = false
 				}
-			})
-			if share == nil {
+			}
+			if !okShare {
 				r.Unk("C07.6", "ingest: go tryShareRegistrationOverAPI", f.Pos(), fnName(f), "not found")
 			} else {
-				gs := guarded(f, share, Atom{"(1 == reg.RegistrationSource)", true}) && guarded(f, share, Atom{"rm.RegConfig.EnableShareOverAPI", true})
+				share := shareL.call.(*ssa.Go)
+				gs := guardedDeep(shareL, Atom{"(1 == reg.RegistrationSource)", true}) && guardedDeep(shareL, Atom{"rm.RegConfig.EnableShareOverAPI", true})
 				r.Check(gs, "C07.6", "ingest: share only if source == Detector and sharing is enabled", share.Pos(), fnName(f), "guarded", "registrations from other sources (already shared, or API) are shared again: peers receive them more than once")
-				okLive2 := true
-				for e := range liveEdges {
-					succ := f.Blocks[e.from].Succs[e.slot]
-					if len(succ.Instrs) > 0 {
-						if hit, _ := reachAt(f, succ, isInstr(share), nil, nil); hit {
-							okLive2 = false
-						}
-					}
-				}
-				early, _ := reach(f, nil, isInstr(share), isInstr(probe), notReq)
-				r.Check(okLive2 && !early, "C07.6", "ingest: share only after the registration passed the liveness probe", share.Pos(), fnName(f), "not reachable from the live edge; probe must-pass for probe-requiring registrations",
+				okLive2, foundLive2 := neverAfter(shareL, liveM, nil)
+				early := !alwaysBefore(shareL, probeL, notReqM)
+				r.Check(okLive2 && foundLive2 && !early, "C07.6", "ingest: share only after the registration passed the liveness probe", share.Pos(), fnName(f), "not reachable from the live edge; probe must-pass for probe-requiring registrations",
 					"a registration is passed on to peer stations (marked pre-scanned) although its phantom was live or was never probed")
 				// exactly one share per call
-				again, _ := reach(f, share, isInstr(share), nil, nil)
+				again, _ := reach(shareL.in, share, isInstr(share), nil, nil)
+				if len(shareL.chain) > 0 {
+					if a2, _ := reach(f, shareL.chain[0], isInstr(shareL.chain[0]), nil, nil); a2 {
+						again = true
+					}
+				}
 				r.Check(!again, "C07.6", "ingest: at most one share per ingested registration", share.Pos(), fnName(f), "not in a loop", "the share statement can execute more than once for one registration")
 			}
 		}
